@@ -1,6 +1,7 @@
 """C09  Parallel writers do not interfere.
 
-Writer lists (1..5 writers, uneven loads 0..3*eps+2, several splits per
+Writer lists (1..5 writers, one case in twelve more writers than the machine
+has processors: cpu_count+1..+4; uneven loads 0..3*eps+2, several splits per
 writer, empty writers, generated per-example delays so that relative speeds
 differ and workers overlap) run through Dataset.write_multiprocessing with
 real worker processes (single_process=False); fb / npz, tfrec at low weight.
@@ -53,7 +54,12 @@ def strategy_case(draw, tier):
     eps = draw(st.integers(1, 4))
     desc = dsops.simple_desc(fmt, draw(st.sampled_from(
         dsops.COMPRESSIONS[fmt][:2])), eps, ["sha256"], payload=True)
-    n_writers = draw(st.integers(1, 5))
+    if draw(st.integers(0, 11)) == 0:
+        # more writers than processors (pool sizes are derived from the
+        # processor count)
+        n_writers = (os.cpu_count() or 4) + draw(st.integers(1, 4))
+    else:
+        n_writers = draw(st.integers(1, 5))
     writers = []
     for _ in range(n_writers):
         runs = draw(
